@@ -109,35 +109,86 @@ theorem tick_row15 (s : Subn) (h : s.state = .keepAlive) (hn : s.notifs = []) (h
   subst h hn hp hk hsq
   cases enabled <;> cases hasItem <;> eval_tick
 
-/-- rows #8 / #12: elapsed interval, NO request queued, in Normal before the first message or in
-Late: the lifetime counter goes down; whatever the items reported is dropped -/
-theorem tick_row8_12 (s : Subn)
-    (h : (s.state = .normal ∧ s.sent = false) ∨ s.state = .late) (hn : s.notifs = [])
-    (hl : s.life ≠ 1) (hl0 : s.life ≠ 0) :
-    subTick s true true false = some { s with
+/-! ### Regime 2 lemmas, proved with the merge switch `keepOnNone` off AND on -/
+
+/-- the current source with the merge switch `keepOnNone` set to `k` (`cur current.keepOnNone` IS
+`current`): the lemmas of regime 2 are proved for both values, so they survive the merge -/
+def cur (k : Bool) : Variant := { current with keepOnNone := k }
+
+theorem cur_current : cur current.keepOnNone = current := rfl
+
+macro "eval_tick_k" : tactic =>
+  `(tactic| simp [cur, subTickWith, updateStateWith, handle, startTimer, resetLife, resetKa,
+      enqueue, cond15, act15, current, *])
+
+/-- rows #8 / #12 with any queued notifications: elapsed interval, NO request queued, in Normal
+before the first message or in Late.  The lifetime counter goes down; what the items reported is
+dropped, or (merge switch on, publishing enabled) queued. -/
+theorem tickK_row8_12 (k : Bool) (s : Subn)
+    (h : (s.state = .normal ∧ s.sent = false) ∨ s.state = .late)
+    (hl : s.life ≠ 1) (hl0 : s.life ≠ 0) (hsq : s.seq = succ32 s.lastSeq) :
+    subTickWith (cur k) s true true false = some { s with
       state := .late
       life := s.life - 1
-      pending := s.pending && !s.hasItem } := by
+      pending := s.pending && !s.hasItem
+      notifs := if k && s.enabled && s.pending && s.hasItem then s.notifs ++ [(.data, s.seq)] else s.notifs
+      seq := if k && s.enabled && s.pending && s.hasItem then succ32 s.seq else s.seq
+      lastSeq := if k && s.enabled && s.pending && s.hasItem then s.seq else s.lastSeq } := by
   obtain ⟨state, maxLife, maxKa, life, ka, sent, enabled, notifs, seq, lastSeq, hasItem, pending⟩ := s
-  simp only at h hn hl hl0
-  subst hn
-  rcases h with ⟨rfl, rfl⟩ | rfl <;> cases enabled <;> cases hasItem <;> cases pending <;> eval_tick
+  simp only at h hl hl0 hsq
+  subst hsq
+  rcases h with ⟨rfl, rfl⟩ | rfl <;> cases k <;> cases enabled <;> cases hasItem <;> cases pending <;>
+    cases notifs <;> eval_tick_k
 
-/-- row #27 with no request queued: the subscription closes and queues its BadTimeout status
-change — also when the monitored items report a change in that very tick -/
-theorem tick_row27 (s : Subn) (h : s.state = .normal ∨ s.state = .late ∨ s.state = .keepAlive)
-    (hn : s.notifs = []) (hl : s.life = 1) (hsq : s.seq = succ32 s.lastSeq) (q : Bool) :
-    subTick s true true q = some { s with
+/-- row #27, timer tick, whatever is queued: close and queue the BadTimeout status change last.
+It fires when the interval elapsed, and also on a non-elapsed tick if something is queued. -/
+theorem tickK_row27 (k : Bool) (s : Subn) (e : Bool)
+    (h : (s.state = .normal ∧ s.sent = false) ∨ s.state = .late)
+    (hl : s.life = 1) (hsq : s.seq = succ32 s.lastSeq) (he : e = true ∨ s.notifs ≠ []) :
+    subTickWith (cur k) s true e false = some { s with
       state := .closed
       hasItem := false
       pending := false
       seq := succ32 s.seq
       lastSeq := s.seq
-      notifs := [(.statusChange, s.seq)] } := by
+      notifs := s.notifs ++ [(.statusChange, s.seq)] } := by
   obtain ⟨state, maxLife, maxKa, life, ka, sent, enabled, notifs, seq, lastSeq, hasItem, pending⟩ := s
-  simp only at h hn hl hsq
-  subst hn hl hsq
-  rcases h with rfl | rfl | rfl <;> cases hasItem <;> cases pending <;> cases q <;> eval_tick
+  simp only at h hl hsq he
+  subst hsq hl
+  rcases he with rfl | he
+  · rcases h with ⟨rfl, rfl⟩ | rfl <;> cases k <;> cases enabled <;> cases hasItem <;> cases pending <;>
+      cases notifs <;> eval_tick_k
+  · cases notifs with
+    | nil => exact absurd rfl he
+    | cons x l =>
+      rcases h with ⟨rfl, rfl⟩ | rfl <;> cases k <;> cases e <;> cases enabled <;> cases hasItem <;>
+        cases pending <;> eval_tick_k
+
+/-- non-elapsed timer tick without a request, lifetime not exhausted or nothing queued: no change -/
+theorem tickK_unserved_quiet (k : Bool) (s : Subn)
+    (h : (s.state = .normal ∧ s.sent = false) ∨ s.state = .late)
+    (hl : s.life ≠ 1 ∨ s.notifs = []) :
+    subTickWith (cur k) s true false false = some s := by
+  obtain ⟨state, maxLife, maxKa, life, ka, sent, enabled, notifs, seq, lastSeq, hasItem, pending⟩ := s
+  simp only at h hl
+  rcases hl with hl | rfl
+  · rcases h with ⟨rfl, rfl⟩ | rfl <;> cases k <;> cases notifs <;> eval_tick_k
+  · rcases h with ⟨rfl, rfl⟩ | rfl <;> cases k <;> eval_tick_k
+
+theorem tickK_creating (k : Bool) (s : Subn) (e : Bool) (h : s.state = .creating) (hn : s.notifs = []) :
+    subTickWith (cur k) s true e false = some { s with state := .normal, sent := false } := by
+  obtain ⟨state, maxLife, maxKa, life, ka, sent, enabled, notifs, seq, lastSeq, hasItem, pending⟩ := s
+  simp only at h hn
+  subst h hn
+  cases k <;> eval_tick_k
+
+theorem tickK_closed (k : Bool) (s : Subn) (e : Bool) (h : s.state = .closed) :
+    subTickWith (cur k) s true e false = some s := by
+  obtain ⟨state, maxLife, maxKa, life, ka, sent, enabled, notifs, seq, lastSeq, hasItem, pending⟩ := s
+  simp only at h
+  subst h
+  cases k <;> cases notifs <;> eval_tick_k
+
 
 /-! ### Facts that hold for every row of the table and every source variant -/
 
